@@ -228,6 +228,9 @@ class CommonPage(Page):
             docgetter = util.DocGetter()
         self.docgetter = docgetter
         self._order = ob.system.membersOrder(ob)
+        # Table ids only have to be unique within one page: number them per page,
+        # such that they do not depend on what was rendered before in this process.
+        ChildTable.last_id = 0
 
     @property
     def page_url(self) -> str:
